@@ -25,5 +25,6 @@ def check(run):
     common.gen_structs(run)
     for fam in BUILD:
         run.gen("Gen_Build", consts={"Fam": fam}, tag="Gen_Build_" + fam)
+    run.gen("Gen_C06")      # signing constructors: decoded content (C02), published date (C15)
     run.replay_and_judge()
     return vlib.finish(run, "model_checking", RULE, ASSUME)
